@@ -271,8 +271,53 @@ class Projector(object):
         res['npvd'] = len(iso.pvds)
         res['elt'] = self.eltorito()
         res['hyb'] = self.hybrid()
+        if self.public:
+            res['rd'] = self.reads(res)
         res['err'] = sorted(set(self.errors))
         return res
+
+    # -- the other readers: walk(), get_record() + full_path_from_dirrecord() ------------------
+    def reads(self, res):
+        """what walk() lists and what full_path_from_dirrecord(get_record(path)) answers, in name
+        ids (PyCdlibModel: WalkOf, SameObject); judged by Trace_Model (Tree_walk_*, Tree_fullpath_*)"""
+        iso = self.iso
+        tab = self.tab
+        rd = {'on': True}
+        for ns in ('iso', 'rrv', 'jol', 'udf'):
+            tns = NS_TAB[ns]
+            w = []
+            fp = []
+            rd['w' + ns] = w
+            rd['f' + ns] = fp
+            present = {'iso': True, 'rrv': bool(iso.rock_ridge), 'jol': iso.joliet_vd is not None,
+                       'udf': iso.udf_root is not None}[ns]
+            if not present or len(res[ns]) > 400:
+                if present:
+                    rd['on'] = False
+                continue
+
+            def ids(path):
+                return [tab.unname(tns, c) for c in path.split('/') if c]
+            paths = []
+            try:
+                for (d, ds, fs) in iso.walk(**{NS_KW[ns]: '/'}):
+                    w.append({'d': ids(d), 'ds': [tab.unname(tns, x) for x in ds],
+                              'fs': [tab.unname(tns, x) for x in fs]})
+                    for x in list(ds) + list(fs):
+                        paths.append((d if d != '/' else '') + '/' + x)
+                    if len(w) > 2000:
+                        raise RuntimeError('walk does not end')
+            except Exception as e:  # pylint: disable=broad-except
+                self.errors.append('walk:%s:%s' % (ns, exc_class(e)))
+                continue
+            for path in paths:
+                try:
+                    rec = iso.get_record(**{NS_KW[ns]: path})
+                    back = iso.full_path_from_dirrecord(rec, rockridge=(ns == 'rrv'))
+                    fp.append({'p': ids(path), 'q': ids(back)})
+                except Exception as e:  # pylint: disable=broad-except
+                    self.errors.append('fullpath:%s:%s:%s' % (ns, path, exc_class(e)))
+        return rd
 
     def eltorito(self):
         cat = self.iso.eltorito_boot_catalog
